@@ -96,54 +96,64 @@ structure LS where
 def setRow (rows : List XRow) (i : Nat) (q : Seq) : List XRow :=
   rows.mapIdx fun j r => if j == i then (r.1, r.2 ++ q) else r
 
+/-- the conservation line that ends a block (the token just read is white space), the blank lines after
+it and the first token of the next block; `none` = end of the file -/
+def blockEnd (tok : Tok) (s : St) (ls : LS) : R (Option (Tok × St × LS)) := do
+  if ls.cur == 0 then .error .error
+  if ls.nbseq != 0 && ls.cur != ls.nbseq then .error .error
+  let (t, s) ← skipLine (s.inp.length + 3) tok s
+  if t != .eol then .error .error
+  let (t, s) ← scanWithEOL s
+  if t == .eof then return none
+  if t != .eol then .error .error
+  let (t, s) ← s.scan
+  if t == .eof then return none
+  return some (t, s, { ls with nbseq := ls.cur, nblocks := ls.nblocks + 1, cur := 0 })
+
+/-- one sequence row whose first token is `tok`: `name WS sequence [WS count] EOL` -/
+def row (tok : Tok) (s : St) : R (Name × Seq × Tok × St) := do
+  let name ← match tok with
+    | .ident l => pure l
+    | .num l => pure l
+    | _ => .error .error
+  let (t, s) ← s.scan
+  if t != .ws then .error .error
+  let (t, s) ← s.scan
+  let seq ← match t with
+    | .ident l => pure l
+    | _ => .error .error
+  let (t, s) ← s.scan
+  let (t, s) ← if t == .ws then do
+      let (t, s) ← s.scan
+      match t with
+      | .num _ => s.scan
+      | _ => .error .error
+    else pure (t, s)
+  if t != .eol then .error .error
+  return (name, seq, t, s)
+
+/-- first block: append; later blocks: the row at the same position must carry the same name -/
+def place (checksRowIndex : Bool) (ls : LS) (name : Name) (seq : Seq) : R LS :=
+  if ls.nblocks == 0 then pure { ls with rows := ls.rows ++ [(name, seq)], cur := ls.cur + 1 }
+  else
+    match ls.rows[ls.cur]? with
+    | none => if checksRowIndex then .error .error else .error .panic
+    | some r =>
+      if r.1 != name then .error .error
+      else pure { ls with rows := setRow ls.rows ls.cur seq, cur := ls.cur + 1 }
+
 /-- `for tok != EOF { … }` -/
 def loop (checksRowIndex : Bool) : Nat → Tok → St → LS → R LS
   | 0, _, _, _ => .error .hang
   | fuel + 1, tok, s, ls =>
     if tok == .eof then pure ls else do
     let (tok, s) ← s.scan
-    -- last line of a block
-    let step : R (Option (Tok × St × LS)) :=
-      if tok == .ws then do
-        if ls.cur == 0 then .error .error
-        if ls.nbseq != 0 && ls.cur != ls.nbseq then .error .error
-        let (t, s) ← skipLine (s.inp.length + 3) tok s
-        if t != .eol then .error .error
-        let (t, s) ← scanWithEOL s
-        if t == .eof then return none
-        if t != .eol then .error .error
-        let (t, s) ← s.scan
-        if t == .eof then return none
-        return some (t, s, { ls with nbseq := ls.cur, nblocks := ls.nblocks + 1, cur := 0 })
-      else return some (tok, s, ls)
-    match ← step with
+    let st ← if tok == .ws then blockEnd tok s ls else pure (some (tok, s, ls))
+    match st with
     | none => pure ls
     | some (tok, s, ls) =>
-      let name ← match tok with
-        | .ident l => pure l
-        | .num l => pure l
-        | _ => .error .error
-      let (t, s) ← s.scan
-      if t != .ws then .error .error
-      let (t, s) ← s.scan
-      let seq ← match t with
-        | .ident l => pure l
-        | _ => .error .error
-      let (t, s) ← s.scan
-      let (t, s) ← if t == .ws then do
-          let (t, s) ← s.scan
-          match t with
-          | .num _ => s.scan
-          | _ => .error .error
-        else pure (t, s)
-      if t != .eol then .error .error
-      let ls ← if ls.nblocks == 0 then pure { ls with rows := ls.rows ++ [(name, seq)], cur := ls.cur + 1 }
-        else
-          match ls.rows[ls.cur]? with
-          | none => if checksRowIndex then .error .error else .error .panic
-          | some r =>
-            if r.1 != name then .error .error
-            else pure { ls with rows := setRow ls.rows ls.cur seq, cur := ls.cur + 1 }
+      let (name, seq, t, s) ← row tok s
+      let ls ← place checksRowIndex ls name seq
       loop checksRowIndex fuel t s ls
 
 def toOutcome {α} : R α → Outcome α
